@@ -6,6 +6,11 @@ ALL = ["C%02d" % i for i in range(1, 21)]
 
 # id -> dict(level_text, level_note, technique, design_ref)
 CLAIMED = {
+ "C05": dict(
+   text="The CLI's real action handler (make_config through hook H2, real clap parsing/normalisation incl. the -r / --signal shorthands) driven in-process with synthetic change events; the supervised command is a helper that logs start / signal / end lines with CLOCK_MONOTONIC stamps and holds a flock for its lifetime (kernel-level overlap witness). Generated: four modes, stop signal TERM/INT/USR1, stop timeout 100-400 ms, optional --delay-run, debounce 20-50 ms, command that exits after 450-800 ms / runs until signalled / ignores the stop signal, 1-4 changes positioned against the observed lifecycle (clearly mid-run, clearly idle, at the moment of exit, inside the grace period, back-to-back, exit during the delay sleep). Oracles: no overlap (always); idle change starts exactly one run; mid-run change: do-nothing -> no signal, no extra run; signal -> exactly the configured signal, no restart; restart -> stop signal at once, replacement not before the stop timeout for a command ignoring it and promptly after, a fresh run; queue -> exactly one further run after the current one ends; freshness in restart and queue modes. e2e leg with the real binary and a real file change: first run at start-up unless --postpone.",
+   note="Real time and real processes; class-specific assertions only for changes that are clearly mid-run / idle by >=150-200 ms; failures must reproduce (3 of 3; freshness failures 1 more in 5). The microsecond-wide queue-mode window of DESIGN.md §5 is not reached.",
+   technique="proptest generated change schedules positioned against the observed process lifecycle, history oracles on helper logs + flock overlap witness (real time)",
+   ref="DESIGN.md §3 C05"),
  "C08": dict(
    text="In-process Watchexec whose action handler runs a generated program over real helper processes: 0-4 jobs (plain / grouped / session; command exits on the stop signal, ignores it, or forks a process-group member that ignores / exits) brought to states never-started, running, finished, running with an armed grace timer (graceful stop or try-restart), deleted; handle clones held outside; queued run_async sleeps; abort or graceful quit (grace 0-900 ms), optionally requested in the action that created the jobs; plus scenarios with 2-4 jobs that all need their full grace period. Oracle: main's JoinHandle completes within the bound (abort 1.5 s; graceful max over jobs of pending grace + quit grace + queued sleeps, + 0.8 s), and 300 ms later every pid the helpers logged (children always; group members of grouped/session commands after a graceful quit) is gone or a zombie. CLI leg: the real binary under SIGINT / SIGTERM exits within stop-timeout + slack and leaves nothing behind.",
    note="Real time and real processes: failures must reproduce 3 times; bounds carry fixed slack. One open known finding: a group member ignoring the stop signal survives a graceful stop of a grouped command whose leader exits.",
